@@ -191,11 +191,13 @@ def fiddler_from_diff(
       additional_converters=value_converters)
 
   body = []
+  # Aliases for values of the input config come first: they only read from the
+  # (still unmodified) config, and new shared values may refer to them.
+  body += _cst_for_moved_value_variables(param_name, moved_value_names,
+                                         pyval_to_cst)
   body += _cst_for_new_shared_value_variables(diff.new_shared_values,
                                               new_shared_value_names,
                                               pyval_to_cst)
-  body += _cst_for_moved_value_variables(param_name, moved_value_names,
-                                         pyval_to_cst)
   body += _cst_for_changes(diff, param_name, moved_value_names, pyval_to_cst)
 
   fiddler = _cst_for_fiddler(func_name, param_name, body,
